@@ -490,7 +490,28 @@ def _unparse_region_exit(self, node):
 
 
 # ast.unparse has no generic fallback for statement classes it does not know: teach it the two synthetic ones
+def _unparse_formatted_value(self, node):
+    """ast.unparse of Python < 3.12 refuses an f-string whose expression part needs a backslash; the text is only ever read by the rules (3.12 accepts it)"""
+    def unparse_inner(inner):
+        unparser = type(self)(_avoid_backslashes=True)
+        unparser.set_precedence(ast._Precedence.TEST.next(), inner)
+        return unparser.visit(inner)
+
+    with self.delimit("{", "}"):
+        expr = unparse_inner(node.value)
+        if expr.startswith("{"):
+            self.write(" ")
+        self.write(expr)
+        if node.conversion != -1:
+            self.write(f"!{chr(node.conversion)}")
+        if node.format_spec:
+            self.write(":")
+            self._write_fstring_inner(node.format_spec)
+
+
 if hasattr(ast, "_Unparser"):
+    if hasattr(ast, "_Precedence") and "_avoid_backslashes" in getattr(ast._Unparser.__init__, "__code__", type("x", (), {"co_varnames": ()})).co_varnames:
+        ast._Unparser.visit_FormattedValue = _unparse_formatted_value  # type: ignore[attr-defined]
     ast._Unparser.visit_Region = _unparse_region  # type: ignore[attr-defined]
     ast._Unparser.visit_RegionExit = _unparse_region_exit  # type: ignore[attr-defined]
 
@@ -3447,6 +3468,10 @@ def format_to_joined(template: str, args, keywords):
 
     if any(isinstance(a, ast.Starred) for a in args) or any(k.arg is None for k in keywords):
         return None
+    # Python < 3.12 cannot spell a backslash inside the expression part of an f-string (ast.unparse refuses): keep the .format() call
+    for e in list(args) + [k.value for k in keywords]:
+        if any(isinstance(x, ast.Constant) and isinstance(x.value, (str, bytes)) and (b"\\" in x.value if isinstance(x.value, bytes) else "\\" in x.value) for x in ast.walk(e)):
+            return None
     try:
         parts = list(_string.Formatter().parse(template))
     except ValueError:
